@@ -12,6 +12,10 @@
 (*   and(c) .. end           (c && { ..; true })                              *)
 (*   match .. arm .. arm .. end    match (c1, c2) { (true, _) => {..},        *)
 (*                                 (false, true) => {..}, _ => {..} }         *)
+(*   callc(x)  x = h(x);  with  fn h(p: u8) -> u8 { A }  where A is a         *)
+(*             top-level constant that main's variable of the same name      *)
+(*             shadows: the callee sees the constant (7), never the caller's  *)
+(*             variable                                                       *)
 (* A world assigns a truth value to every condition.                          *)
 (*                                                                            *)
 (* Oracle: the sequential semantics (only the taken branch runs).             *)
@@ -22,6 +26,8 @@
 (* Scheme = "loop-shared"  one scope for all iterations (superseded): refuted *)
 (* Scheme = "and-no-mux"   && compiled on the caller's env (superseded):      *)
 (*                         refuted                                            *)
+(* Scheme = "call-sees-caller"  the callee is compiled on the caller's scopes *)
+(*                         (superseded, repaired by d681b06): refuted         *)
 (* Every skeleton is emitted and rendered to a Garble program that the real   *)
 (* compiler evaluates in every world (C14).                                   *)
 EXTENDS Naturals, Sequences, FiniteSets, TLC, Json
@@ -32,7 +38,7 @@ Worlds == [Conds -> BOOLEAN]
 Vars == {"a", "b"}
 Other(x) == IF x = "a" THEN "b" ELSE "a"
 I(op, x, c) == [op |-> op, x |-> x, c |-> c]
-Alphabet == {I(op, x, 0) : op \in {"let", "letmut", "asg", "cpy"}, x \in Vars}
+Alphabet == {I(op, x, 0) : op \in {"let", "letmut", "asg", "cpy", "callc"}, x \in Vars}
             \cup {I(op, "-", c) : op \in {"if", "and"}, c \in Conds}
             \cup {I("else", "-", 0), I("end", "-", 0), I("blk", "-", 0), I("loop", "-", 0)}
             \cup (IF NConds >= 2 THEN {I("match", "-", 0), I("arm", "-", 0)} ELSE {})
@@ -49,7 +55,7 @@ Scan(p, i, st) ==
          IN
          CASE x.op = "let" -> Scan(p, i + 1, [st EXCEPT ![Len(st)].mut[x.x] = FALSE])
            [] x.op = "letmut" -> Scan(p, i + 1, [st EXCEPT ![Len(st)].mut[x.x] = TRUE])
-           [] x.op \in {"asg", "cpy"} -> IF top.mut[x.x] THEN Scan(p, i + 1, st) ELSE Bad
+           [] x.op \in {"asg", "cpy", "callc"} -> IF top.mut[x.x] THEN Scan(p, i + 1, st) ELSE Bad
            [] x.op \in {"if", "and", "blk", "loop", "match"} -> Scan(p, i + 1, Append(st, [k |-> x.op, els |-> FALSE, arms |-> 0, mut |-> top.mut, mut0 |-> top.mut]))
            [] x.op = "arm" -> IF Len(st) > 1 /\ top.k = "match" /\ top.arms < 2
                               THEN Scan(p, i + 1, [st EXCEPT ![Len(st)].arms = top.arms + 1, ![Len(st)].mut = top.mut0]) ELSE Bad
@@ -62,7 +68,7 @@ RECURSIVE Need(_)
 Need(st) == IF Len(st) <= 1 THEN 0
             ELSE (IF st[Len(st)].k = "if" /\ ~st[Len(st)].els THEN 2
                   ELSE IF st[Len(st)].k = "match" THEN 3 - st[Len(st)].arms ELSE 1) + Need(SubSeq(st, 1, Len(st) - 1))
-Writes(p) == \E i \in 1..Len(p) : p[i].op \in {"asg", "cpy"}
+Writes(p) == \E i \in 1..Len(p) : p[i].op \in {"asg", "cpy", "callc"}
 
 (* matching positions *)
 Openers == {"if", "and", "blk", "loop", "match"}
@@ -95,6 +101,7 @@ PopE(env) == SubSeq(env, 1, Len(env) - 1)
 (* ---- oracle: sequential execution in one world (values are naturals) ---- *)
 Env0 == << [x \in Vars |-> IF x = "a" THEN 1 ELSE 2] >>
 K(i) == 10 + i
+ConstA == 7      \* the top-level constant that the variable a of main shadows
 RECURSIVE Run(_, _, _, _, _)
 (* ctl: stack of [k, ret (for loops: first body instruction), left] *)
 Run(p, i, w, env, ctl) ==
@@ -103,6 +110,7 @@ Run(p, i, w, env, ctl) ==
          CASE x.op \in {"let", "letmut"} -> Run(p, i + 1, w, Bind(env, x.x, K(i)), ctl)
            [] x.op = "asg" -> Run(p, i + 1, w, Assign(env, x.x, K(i)), ctl)
            [] x.op = "cpy" -> Run(p, i + 1, w, Assign(env, x.x, Lookup(env, Other(x.x))), ctl)
+           [] x.op = "callc" -> Run(p, i + 1, w, Assign(env, x.x, ConstA), ctl)
            [] x.op = "blk" -> Run(p, i + 1, w, Push(env), Append(ctl, [k |-> "blk", ret |-> 0, left |-> 0]))
            [] x.op = "loop" -> Run(p, i + 1, w, Push(env), Append(ctl, [k |-> "loop", ret |-> i + 1, left |-> 1]))
            [] x.op = "if" -> IF w[x.c] THEN Run(p, i + 1, w, Push(env), Append(ctl, [k |-> "if", ret |-> 0, left |-> 0]))
@@ -151,6 +159,9 @@ Step ==
        CASE x.op \in {"let", "letmut"} -> env' = Bind(env, x.x, Const(K(pc))) /\ pc' = pc + 1 /\ UNCHANGED stack
          [] x.op = "asg" -> env' = Assign(env, x.x, Const(K(pc))) /\ pc' = pc + 1 /\ UNCHANGED stack
          [] x.op = "cpy" -> env' = Assign(env, x.x, Lookup(env, Other(x.x))) /\ pc' = pc + 1 /\ UNCHANGED stack
+         [] x.op = "callc" ->      \* the callee's environment: the constants (scope 0 of the program) and its parameter
+               LET calleeEnv == IF Scheme = "call-sees-caller" THEN Push(env) ELSE << [a |-> Const(ConstA)] >>
+               IN  env' = Assign(env, x.x, Lookup(calleeEnv, "a")) /\ pc' = pc + 1 /\ UNCHANGED stack
          [] x.op = "blk" -> env' = Push(env) /\ pc' = pc + 1 /\ stack' = Append(stack, [k |-> "blk", c |-> 0, before |-> env, then |-> env, ret |-> 0, left |-> 0])
          [] x.op = "loop" -> env' = Push(env) /\ pc' = pc + 1 /\ stack' = Append(stack, [k |-> "loop", c |-> 0, before |-> env, then |-> env, ret |-> pc + 1, left |-> 1])
          [] x.op = "if" -> env' = Push(env) /\ pc' = pc + 1 /\ stack' = Append(stack, [k |-> "if", c |-> x.c, before |-> env, then |-> env, ret |-> 0, left |-> 0])
